@@ -210,6 +210,60 @@ DESC4 = {
  'C18_C': ('record.rs serialize clamp_queue_name', 'the assert on the name length replaced by cutting the name to its 65535-byte prefix in the WAL', 'a queue whose oversized name starts with another queue\'s maximal-length name, restart'),
 }
 
+DESC5 = {
+ 'C01_A': ('multi_record_log.rs append_record', 'single-record fast path taking current_file().clone() AFTER write_record', 'a record written with append_record that crosses a file boundary, the first file released by a truncate, restart'),
+ 'C01_B': ('mem/queues.rs spare_queues + mem/queue.rs clear', 'deleted MemQueues are recycled by create_queue; clear() empties through truncate_head and keeps start_position', 'delete a queue that had records, create a queue in the same process, restart'),
+ 'C01_C': ('file_number.rs take_all_unused + directory.rs gc_unreferenced + delete_queue', 'after delete_queue every unreferenced file except the last is reclaimed, not only a prefix', 'three queues, an old file pinned by a slow queue, a middle file holding Truncate/DeleteQueue entries, delete_queue, restart'),
+ 'C02_A': ('file_number.rs take_unused + directory.rs gc', 'unused files collected oldest-first into a Vec and unlinked with pop(): newest first', 'a GC removing >= 2 files interrupted between the two unlinks'),
+ 'C02_B': ('multi_record_log.rs append_records', 'past / retry check against last_record() instead of next_position', 'fully truncated queue, append with an explicit stale position, restart: open fails with Corruption'),
+ 'C02_C': ('frame/reader.rs read_frame_header', 'cursor advanced before the header validity check', 'a torn header at the end of the log: the writer resumes 7 bytes too far'),
+ 'C03_A': ('multi_record_log.rs run_gc_if_necessary + record_empty_queues_position', 'one fsync per GC pass, placed BEFORE the position pass, whose own fsync is removed', 'lazy policy, GC while a queue is empty, crash before the next flush'),
+ 'C03_B': ('file_number.rs take_first_unused (+ unused: Vec field)', 'the whole unused prefix collected at once and handed out with pop(): newest first', 'a GC removing >= 2 files interrupted after the first unlink'),
+ 'C03_C': ('rolling/directory.rs roll_over helper', 'file_number and offset switched before the fallible create/open of the next file', 'a transient I/O fault when the next file is created, a retry, a truncate of older records'),
+ 'C04_A': ('mem/queue.rs truncate_head', 'start_position set from next_position() (hoisted local) in the evict-everything branch', 'truncate beyond the last appended position, then an automatic append'),
+ 'C04_B': ('multi_record_log.rs record_empty_queues_position queue_position', 'position re-recorded at GC = summary.end.unwrap_or(start): last instead of next', 'emptied queue, roll-over, GC, restart, automatic append'),
+ 'C04_C': ('mem/queues.rs truncate', 'fast path Some(0) for an empty queue (truncate_head skipped)', 'drained queue truncated ahead, automatic append'),
+ 'C06_A': ('mem/queue.rs first_file cache', 'cached FileNumber clone refreshed only when the first kept record carries a file marker', 'truncate crossing a file boundary and landing mid-file'),
+ 'C06_B': ('multi_record_log.rs open_with_prefs', 'clone of the first FileNumber kept for an info! after the recovery-time GC', 'crash after a durable Truncate but before the unlink, reopen'),
+ 'C06_C': ('rolling/directory.rs has_files_that_can_be_deleted', 'gate rewritten as count() - 1 > 1', 'exactly two tracked files, the older one reclaimable'),
+ 'C07_A': ('frame/reader.rs into_writer resume_cursor', 'writer resumes at the next block when <= HEADER_LEN bytes remain', 'a log ending exactly 7 bytes before a block end, reopen, append, reopen'),
+ 'C07_B': ('multi_record_log.rs append_records', 'empty-transaction shortcut tests total payload bytes instead of the serialised buffer', 'a batch made only of zero-length entries'),
+ 'C07_C': ('rolling/directory.rs open_next_file', 'create_file with fallback to open_file on AlreadyExists: the set_len of a reused file is lost', 'crash between creation and sizing of the next file, reopen, roll into it, reopen'),
+ 'C08_A': ('frame/reader.rs read_frame', 'frame-fits test 7 bytes too lenient, payload slice made checked, Corruption without quarantine', 'a length overshooting the block by 1..7 bytes with frame-shaped bytes in the payload'),
+ 'C08_B': ('frame/header.rs crc32 update_by_chunks', 'payload hashed with chunks_exact(4096): the remainder is never hashed', 'damage in the last len % 4096 bytes of a large frame'),
+ 'C08_C': ('mem/queue.rs append_record', 'Past check lost when the last record lives in another WAL file', 'zeroed header at the end of wal-0 with a stale wal-1, reopen, appends, reopen'),
+ 'C09_A': ('frame/reader.rs read_frame is_on_frame_boundary', 'on CRC failure the rest of the block is dropped unless the next bytes look like a frame start (< for <=)', 'damage in a small frame whose successor ends exactly at the block end'),
+ 'C09_B': ('frame/header.rs Header::deserialize', 'a header whose checksum field is zero is rejected as partially written', 'damage zeroing the four checksum bytes of one frame with more entries in the block'),
+ 'C09_C': ('mem/queues.rs ack_position', 'already-in-state test = start_position() != next_position (is_empty dropped)', 'payload damage on a DeleteQueue entry, queue recreated and appended to'),
+ 'C10_A': ('frame/reader.rs go_to_next_block_if_necessary', 'Corruption instead of NotAvailable when next_block() is false while skipping a damaged block', 'a damaged header in the LAST readable block: the replay loop spins'),
+ 'C10_B': ('rolling/file_number.rs FileTracker::next', 'successor lookup as range(curr + 1..)', 'a stray wal-18446744073709551615 and an exactly full last file'),
+ 'C10_C': ('rolling/directory.rs read_block', 'read_exact replaced by a hand-rolled read loop that spins on a 0-byte read after a partial block', 'a WAL file whose length is not a multiple of 32 KiB'),
+ 'C11_A': ('rolling/directory.rs RollingReader::next_block', 'following files walked with successors(..).flat_map(|n| open_file(n)..): io::Result as IntoIterator drops the error', 'a non-first WAL file that cannot be opened'),
+ 'C11_B': ('recordlog/reader.rs go_next drop_record_in_flight', 'IoError reported as Corruption while an entry is being assembled', 'a transient I/O failure at a block/file boundary inside an entry'),
+ 'C11_C': ('frame/reader.rs load_next_block is_transient', 'unbounded retry of next_block on Interrupted / WouldBlock / TimedOut', 'a persistent ETIMEDOUT / EAGAIN on a WAL read'),
+ 'C12_A': ('recordlog/reader.rs go_next', 'Corruption while within_record answers Ok(false) (end of log)', 'garbage on a non-first block header of a 4-block batch, reopen, crashed multi-block batch, reopen'),
+ 'C12_B': ('frame/reader.rs read_frame is_torn_write', 'CRC failure with 16 trailing zero bytes treated as a torn write: NotAvailable, cursor stepped back', 'a zeroed page at the end of a middle block of a batch, reopen, crashed batch, reopen'),
+ 'C12_C': ('multi_record_log.rs open_with_prefs MAX_CORRUPTIONS_IN_A_ROW', 'replay breaks after 4 corrupted records in a row', '4 consecutive damaged blocks, reopen, crashed multi-block batch, reopen'),
+ 'C13_A': ('multi_record_log.rs unreported_wal_bytes', 'bytes of the open-time GC carried in a field and added to the next outcome, no-op returns included', 'a restart whose GC pass writes positions, then a retry / empty batch'),
+ 'C13_B': ('rolling/directory.rs roll_if_needed + current_file', 'current_file() rolls over first when the file is exactly full; append_records calls it before the empty-batch test', 'a WAL file filled to exactly 128 KiB, then an empty batch'),
+ 'C13_C': ('mem/queue.rs accepts_position', 'retry / past classification against the last stored record (go ahead when the queue holds none)', 'a fully truncated queue and an explicit stale position'),
+ 'C14_A': ('multi_record_log.rs truncate', 'GC only when next_persist.should_persist().is_some()', 'lazy policy, roll-over, a truncate freeing the oldest file'),
+ 'C14_B': ('block_read_write.rs pad + frame/writer.rs + directory.rs forward', 'padding done by seeking the raw File under the BufWriter', 'lazy policy, an entry ending 1..6 bytes before a block end, another append, clean reopen'),
+ 'C14_C': ('persist_policy.rs update_persisted', 'fixed-grid deadline: late.as_nanos() / interval.as_nanos()', 'OnDelay with a zero interval: divide by zero'),
+ 'C15_A': ('multi_record_log.rs gc_wal_bytes_written', 'GC bytes accumulated in a field drained by truncate / delete_queue but not by open', 'a recovery-time GC writing positions, then the first truncate'),
+ 'C15_B': ('frame/writer.rs write_frame offset_in_block', 'count = in-block cursor distance modulo the block size', 'a frame filling a whole block'),
+ 'C15_C': ('recordlog/writer.rs write_record frame_num_bytes', 'single-frame fast path returns HEADER_LEN + len instead of what write_frame returned', 'an entry starting 1..6 bytes before a block end'),
+ 'C16_A': ('mem/queue.rs truncate_head is_worth_compacting', 'payload bytes removed only when >= 512 bytes are reclaimed', 'a partial truncation evicting fewer than 512 bytes'),
+ 'C16_B': ('mem/queue.rs name_num_bytes + mem/queues.rs size', 'name accounting moved into MemQueue; ack_position builds queues without the name', 'reopen an existing log, resource_usage'),
+ 'C16_C': ('multi_record_log.rs resource_usage scratch_buffer_size', 'the batch serialisation buffer added to both memory figures', 'any non-empty append since open'),
+ 'C17_A': ('rolling/directory.rs Directory::gc', 'after untracking, every directory entry starting with wal- and sorting before the first kept name is removed', 'a foreign wal-... entry sorting before the first retained file'),
+ 'C17_B': ('file_number.rs staging_filename + directory.rs create_file', 'new files created as wal-<N>.tmp (create+truncate) then renamed', 'a foreign wal-<N>.tmp, or a crash between open and rename'),
+ 'C17_C': ('multi_record_log.rs preserve_damaged_file', 'on a corrupted record the WAL file is copied to wal-<N>.damaged', 'any damaged record, reopen'),
+ 'C18_A': ('recordlog/writer.rs write_record_in_file + directory.rs is_current_file_full', 'record pinned to the file current AFTER the write when the file was exactly full', 'cursor exactly at a file end, an append larger than a file, another queue truncates, restart'),
+ 'C18_B': ('multi_record_log.rs open_with_prefs', 'replaying a DeleteQueue for an unknown queue becomes a Corruption error', 'delete_queue whose GC removes all of the queue history, restart'),
+ 'C18_C': ('mem/queue.rs resolve_append_position', 'the in-the-past case left to the in-memory queue, i.e. after the WAL write', 'a stale explicit position on one queue, restart: every queue unreadable'),
+}
+
 
 ROUND = os.environ.get('SEED_ROUND', '1')
 
@@ -222,6 +276,8 @@ def main():
         DESC = DESC3
     if ROUND == '4':
         DESC = DESC4
+    if ROUND == '5':
+        DESC = DESC5
     out_root = os.path.join(VERIF, 'seeded')
     os.makedirs(out_root, exist_ok=True)
     work = os.path.join(VERIF, '.work')
@@ -231,7 +287,7 @@ def main():
         pid, x = key.split('_')
         src = os.path.join(SRC, pid, x)
         vs = os.path.join(VS, '%s_%s.json' % (pid, x))
-        if ROUND in ('3', '4') and os.path.exists(os.path.join(VS, 'r%s_%s_%s.json' % (ROUND, pid, x))):
+        if ROUND in ('3', '4', '5') and os.path.exists(os.path.join(VS, 'r%s_%s_%s.json' % (ROUND, pid, x))):
             vs = os.path.join(VS, 'r%s_%s_%s.json' % (ROUND, pid, x))
         if not os.path.isdir(src) or not os.path.exists(vs):
             print('skip (not verified yet):', key)
